@@ -6,6 +6,12 @@ Correspondence of S2T.Model.Serial (ser / deser / CLI shaping / cell normalisati
       foreign objects, mistyped fields, marker-looking content everywhere),
   (b) results and units of the real extractors on the repository fixtures and on generated XLSX workbooks,
   (c) a malformed stream: serialised documents with one injected fault, and junk documents,
+  (d) process histories: sequences of to_json / serialize_extraction / from_json / CLI calls executed in FRESH process
+      states (harness/workers/c05_history.py: a zygote interpreter that imported the library and made no library call
+      forks one child per history; JSON "stored by another process" is written by yet another child), compared call by
+      call with the registry state machine of S2T/Model/SerialState.lean (op c05.hist) and judged afterwards, in that
+      process state, by the oracle.  This harness process itself is useless for that: it calls `_get_type_registry()`
+      before anything else and keeps every kind of object serialised and deserialised.
 and an oracle of the property statement itself on the real code (independent of the Lean model).
 """
 from __future__ import annotations
@@ -21,18 +27,21 @@ import io
 import json
 import math
 import os
+import subprocess
 import tempfile
 import types
 import typing
 
 import corpus
-from run import Broken, Violation
+from run import Broken, Infra, Violation
 
-GEN = ["Schema"]
+GEN = ["Schema", "SerialState"]
 RULE = ("cases = type-directed instances of every registered dataclass (strict: every field from its hint; loose: "
         "+tuples/sets/foreign objects/mistyped fields), strings and dict keys drawn from the marker vocabulary "
         "(_type,_bytes,_bytesio,class names,base64 text); + results and units of the extractors on all fixtures and "
-        "generated XLSX workbooks; + serialised documents with one injected fault; + CLI payloads. "
+        "generated XLSX workbooks; + serialised documents with one injected fault; + CLI payloads; + process histories in fresh "
+        "process states (per concrete class: its stored JSON restored after serialising / restoring unrelated, related and same-class "
+        "objects, failing from_json calls, repeated calls, unit serialisation, CLI runs; every include_binary order; CLI flag permutations). "
         "distinct = distinct encoded value; non-trivial = value contains a container, a binary leaf or a nested instance")
 ASSUMPTIONS = [
     "json.loads(json.dumps(j)) == j for plain data (None/bool/int/float/str/list/dict with str keys): CPython's json, "
@@ -45,8 +54,13 @@ ASSUMPTIONS = [
     "openpyxl (read_only, data_only) hands cells over as None/bool/int/float/str/datetime/date/time/timedelta (Cell universe of the model; "
     "anything else is covered by the `other` constructor)",
     "dataclasses.fields order, typing.get_type_hints, dict insertion order, str(key) are CPython's",
+    "process histories: state that could make the round trip history-dependent lives in the inventoried kinds of cells (module-level "
+    "containers / globals of serialization.py and cli.py, caches, mutable defaults, attribute stores in the path functions); anything else "
+    "is only exercised by the fresh-process histories, not proved absent",
 ]
 TRUSTED = ["tools/gen/serial.py (registry/fields/hints/defaults/__post_init__ -> Lean schema)",
+           "tools/gen/serial_state.py (state cells of the serialisation path and their classified mentions -> Lean inventory)",
+           "harness/workers/c05_history.py (fork-based fresh process states: the state right after importing the package stands for a fresh interpreter)",
            "model of _serialize_for_json/_deserialize_value/_deserialize_dataclass in S2T/Model/Serial.lean (tied by this correspondence)"]
 
 MARKERS = ("_type", "_bytes", "_bytesio")
@@ -83,7 +97,9 @@ def enc(v):
     if isinstance(v, str):
         return ["s", v]
     if isinstance(v, io.BytesIO):
-        return ["yi", list(v.getvalue())]
+        # a stream that has been read carries its cursor (third element, ignored by the Lean side: the model's
+        # serialiser encodes the whole buffer) so that a replay rebuilds the object in the same state
+        return ["yi", list(v.getvalue())] + ([v.tell()] if v.tell() else [])
     if isinstance(v, bytearray):
         return ["ya", list(v)]
     if isinstance(v, bytes):
@@ -146,7 +162,10 @@ def dec(t):
     if tag == "ya":
         return bytearray(t[1])
     if tag == "yi":
-        return io.BytesIO(bytes(t[1]))
+        b = io.BytesIO(bytes(t[1]))
+        if len(t) > 2:
+            b.seek(int(t[2]))
+        return b
     if tag == "l":
         return [dec(x) for x in t[1]]
     if tag == "tu":
@@ -537,6 +556,392 @@ def one_fault(rng, j, names):
     return "none", copy.deepcopy(j)
 
 
+
+# =============================================================================================== process histories
+WORKER = os.path.join(os.path.dirname(os.path.dirname(os.path.abspath(__file__))), "workers", "c05_history.py")
+CLI_FLAGS = (["--json"], ["--json", "--binary"], ["--json-unit"], ["--json-unit", "--binary"])
+
+
+class HistoryRun:
+    """histories executed by the zygote worker (fresh process state per history), started in the background"""
+
+    def __init__(self, hists, par=8):
+        self.hists = hists
+        env = dict(os.environ)
+        env["S2T_REPO"] = corpus.REPO
+        env["PYTHONPATH"] = corpus.REPO
+        env.pop("PYTHONHASHSEED", None)
+        self.p = None
+        if hists:
+            self.p = subprocess.Popen(["/venv/bin/python", WORKER], stdin=subprocess.PIPE, stdout=subprocess.PIPE, stderr=subprocess.PIPE, env=env)
+            import threading
+            self._out = None
+            data = json.dumps({"histories": hists, "par": par}).encode()
+
+            def pump():
+                self._out = self.p.communicate(data)
+            self.t = threading.Thread(target=pump, daemon=True)
+            self.t.start()
+
+    def finish(self, timeout=900):
+        if not self.p:
+            return []
+        self.t.join(timeout)
+        if self.t.is_alive():
+            self.p.kill()
+            raise Infra("c05 history worker timeout")
+        out, err = self._out
+        if self.p.returncode != 0:
+            raise Infra(f"c05 history worker exit {self.p.returncode}: {err[-600:]!r}")
+        res = json.loads(out.decode())
+        if len(res) != len(self.hists):
+            raise Infra("c05 history worker answered a different number of histories")
+        return res
+
+
+def run_histories(hists, par=8):
+    return HistoryRun(hists, par).finish()
+
+
+def _stored(x, include_binary=True):
+    """the JSON another process stored for x (here: this harness process), through json text"""
+    from sharepoint2text.parsing.extractors import serialization as S
+    return json.loads(json.dumps(S.serialize_extraction(x, include_binary=include_binary)))
+
+
+def _related(reg):
+    """class name -> names of classes tied to it: bases / subclasses in the registry, classes its hints mention
+    (nested objects) and classes whose hints mention it"""
+    rel = {n: set() for n in reg}
+    for n, c in reg.items():
+        for b in c.__mro__[1:]:
+            if b.__name__ in reg:
+                rel[n].add(b.__name__)
+                rel[b.__name__].add(n)
+        try:
+            text = repr(typing.get_type_hints(c))
+        except Exception:
+            text = ""
+        for m in reg:
+            if m != n and (m + "'" in text or m + "]" in text or m + "," in text or "." + m in text):
+                rel[n].add(m)
+                rel[m].add(n)
+    return rel
+
+
+def gen_histories(ctx, rng, pool, fixture_cases, per_class, extra, n_fixture, repeats=12, pairs=30, n_cli=5):
+    """[(history for the worker, model ops, meta)].  A history = a prefix of library calls (serialising / restoring
+    OTHER objects, related and unrelated, with and without binary, failing from_json calls, CLI runs, unit
+    serialisation) followed by the calls under judgement on a target object: from_json of the JSON another
+    process stored for it, to_json + from_json in this process, the same again."""
+    reg = dict(_reg())
+    rel = _related(reg)
+    by_cls = {}
+    for x in pool:
+        by_cls.setdefault(type(x).__name__, []).append(x)
+    names = sorted(by_cls)
+    small_fx = [(d, r) for d, r in fixture_cases if len(json.dumps(enc(r))) < 150_000]
+    cli_fx = sorted({d["fixture"] for d, r in small_fx})
+    out = []
+
+    def build(target_name, target_obj, target_spec, pattern, pre=None, tail=None):
+        objs, ops, mops = {}, [], []
+        cnt = [0]
+
+        def new_obj(x, spec):
+            cnt[0] += 1
+            name = f"o{cnt[0]}"
+            objs[name] = spec
+            return name
+
+        def pick_other(kind):
+            cands = names
+            if kind == "related":
+                cands = [n for n in names if n in rel.get(target_name, ())] or names
+            elif kind == "unrelated":
+                cands = [n for n in names if n != target_name and n not in rel.get(target_name, ())] or names
+            x = rng.choice(by_cls[rng.choice(cands)])
+            return x, {"value": enc(x)}
+
+        def op_ser(x, spec, b, label=None):
+            name = new_obj(x, spec)
+            o = {"op": "to_json", "obj": name, "bin": b}
+            if label:
+                o["label"] = label
+            ops.append(o)
+            mops.append({"k": "ser", "bin": b is not False, "v": enc(x)})
+            return name
+
+        def op_deser(x, spec, src=True):
+            name = new_obj(x, spec)
+            J = _stored(x)
+            ops.append({"op": "from_json", "stored": name, "src": name})
+            mops.append({"k": "deser", "j": enc(J)})
+
+        def prefix_op(kind):
+            if kind in ("ser-other", "ser-related", "ser-nobin"):
+                x, spec = pick_other("related" if kind == "ser-related" else "unrelated")
+                op_ser(x, spec, False if kind == "ser-nobin" else rng.choice([None, True]))
+            elif kind in ("deser-other", "deser-related"):
+                x, spec = pick_other("related" if kind == "deser-related" else "unrelated")
+                op_deser(x, spec)
+            elif kind == "deser-bad":
+                x, spec = pick_other(rng.choice(["related", "unrelated", "any"]))
+                fk, doc = one_fault(rng, _stored(x), sorted(reg))
+                ops.append({"op": "from_json_bad", "json_text": json.dumps(doc)})
+                mops.append({"k": "deser", "j": enc(doc), "bad": True})
+            elif kind == "cli" and cli_fx:
+                ops.append({"op": "cli", "flags": list(rng.choice(CLI_FLAGS)), "fixture": rng.choice(cli_fx)})
+                mops.append(None)
+            elif kind == "units" and small_fx:
+                d, r = rng.choice(small_fx)
+                name = new_obj(r, dict(d))
+                ops.append({"op": "units", "obj": name})
+                mops.append(None)
+
+        kinds = ["ser-other", "ser-related", "ser-nobin", "deser-other", "deser-related", "deser-bad", "cli", "units"]
+        if pre is not None:
+            pre(op_ser, op_deser, ops, mops)
+        elif pattern == "fresh":
+            pass
+        elif pattern == "mixed":
+            for _ in range(rng.randrange(2, 4)):
+                prefix_op(rng.choice(kinds))
+        else:
+            prefix_op(pattern)
+        # the calls under judgement
+        tname = new_obj(target_obj, target_spec)
+        J = _stored(target_obj)
+        ops.append({"op": "from_json", "stored": tname, "src": tname})
+        mops.append({"k": "deser", "j": enc(J)})
+        tail = rng.random() if tail is None else tail
+        if tail < 0.6:
+            reps = 2 if tail < 0.2 else 1
+            for k in range(reps):
+                ops.append({"op": "to_json", "obj": tname, "bin": None, "label": f"t{k}"})
+                mops.append({"k": "ser", "bin": True, "v": enc(target_obj)})
+                ops.append({"op": "from_json", "of": f"t{k}", "src": tname})
+                mops.append({"k": "deser", "j": enc(J)})
+        elif tail < 0.75:
+            ops.append({"op": "to_json", "obj": tname, "bin": False})
+            mops.append({"k": "ser", "bin": False, "v": enc(target_obj)})
+            ops.append({"op": "to_json", "obj": tname, "bin": None, "label": "t0"})
+            mops.append({"k": "ser", "bin": True, "v": enc(target_obj)})
+            ops.append({"op": "from_json", "of": "t0", "src": tname})
+            mops.append({"k": "deser", "j": enc(J)})
+        H = {"id": len(out), "objs": objs, "ops": ops}
+        out.append((H, mops, {"pattern": pattern, "target": target_name}))
+
+    patterns = ["fresh", "ser-other", "ser-related", "ser-nobin", "deser-other", "deser-related", "deser-bad", "cli", "units", "mixed", "mixed"]
+    for name in names:
+        for _ in range(per_class):
+            x = rng.choice(by_cls[name])
+            build(name, x, {"value": enc(x)}, rng.choice(patterns))
+    for _ in range(extra):
+        name = rng.choice(names)
+        x = rng.choice(by_cls[name])
+        build(name, x, {"value": enc(x)}, rng.choice(["ser-other", "ser-related", "deser-bad", "mixed", "mixed", "cli"]))
+    # the same call many times (whatever a call leaves behind accumulates): serialising / restoring one object,
+    # or a document on which from_json fails, 5 or 40 times, then the calls under judgement
+    for _ in range(repeats):
+        name = rng.choice(names)
+        x = rng.choice(by_cls[name])
+        y = rng.choice(by_cls[rng.choice(names)])
+        k = rng.choice([5, 40])
+        kind = rng.choice(["bad", "bad", "ser", "deser"])
+        doc = None
+        if kind == "bad":
+            for _try in range(12):
+                fk, d = one_fault(rng, _stored(rng.choice([x, y])), sorted(reg))
+                if "err" in real_deser(d):
+                    doc = d
+                    break
+            if doc is None:
+                kind = "deser"
+
+        def pre(op_ser, op_deser, ops, mops, kind=kind, k=k, y=y, doc=doc):
+            if kind == "bad":
+                for _i in range(k):
+                    ops.append({"op": "from_json_bad", "json_text": json.dumps(doc)})
+                    mops.append({"k": "deser", "j": enc(doc), "bad": True})
+            elif kind == "ser":
+                b = rng.choice([None, False])
+                n0 = len(ops)
+                op_ser(y, {"value": enc(y)}, b)
+                for _i in range(k - 1):
+                    ops.append(dict(ops[n0]))
+                    mops.append(mops[n0])
+            else:
+                n0 = len(ops)
+                op_deser(y, {"value": enc(y)})
+                for _i in range(k - 1):
+                    ops.append(dict(ops[n0]))
+                    mops.append(mops[n0])
+        build(name, x, {"value": enc(x)}, f"repeat-{kind}", pre=pre)
+    # two objects of the SAME class with extreme shapes (fewest / most binary leaves, fewest / most fields set), every
+    # order of the include_binary flags: whatever is remembered per class but true per instance shows here
+    binary_classes = [n for n in names if any(list(_binary_positions(x)) for x in by_cls[n])]
+    rng.shuffle(binary_classes)
+    for name in binary_classes[:pairs]:
+        xs = sorted(by_cls[name], key=lambda x: len(list(_binary_positions(x))))
+        lo, hi = xs[0], xs[-1]
+        for a, b_, flags in ((lo, hi, (None, False)), (hi, lo, (False, None)), (lo, hi, (False, None))):
+            if rng.random() < 0.5 and pairs < 1000:
+                continue
+
+            def pre(op_ser, op_deser, ops, mops, a=a, f0=flags[0]):
+                op_ser(a, {"value": enc(a)}, f0)
+            build(name, b_, {"value": enc(b_)}, "same-class-pair", pre=pre, tail=0.7 if flags[1] is False else 0.3)
+    for _ in range(min(n_fixture, 4 * len(small_fx))):
+        d, r = rng.choice(small_fx)
+        spec, x = dict(d), r
+        if rng.random() < 0.4:
+            try:
+                us = list(r.iterate_units())
+            except Exception:
+                us = []
+            if us:
+                ui = rng.randrange(len(us))
+                spec, x = dict(d, unit=ui), us[ui]
+        if len(json.dumps(enc(x))) > 150_000:
+            continue
+        build(type(x).__name__, x, spec, rng.choice(["ser-other", "cli", "units", "fresh", "mixed", "deser-other", "ser-nobin"]))
+    # the CLI several times in one process: every flag combination on one file (preferably one with binary payloads),
+    # in a random order, another file in between
+    bin_fx = sorted({d["fixture"] for d, r in small_fx if any(True for _ in _binary_positions(r))})
+    multi_fx = sorted({d["fixture"] for d, r in small_fx if d.get("index", 0) > 0})   # archives, mailboxes
+    for i in range(min(n_cli, len(cli_fx))):
+        fx = rng.choice([bin_fx, multi_fx, cli_fx][i % 3] or cli_fx)
+        order = [list(f) for f in CLI_FLAGS]
+        rng.shuffle(order)
+        ops = [{"op": "cli", "flags": f, "fixture": fx} for f in order]
+        ops.insert(rng.randrange(1, len(ops)), {"op": "cli", "flags": list(rng.choice(CLI_FLAGS)), "fixture": rng.choice(cli_fx)})
+        out.append(({"id": len(out), "objs": {}, "ops": ops}, [None] * len(ops), {"pattern": "cli-repeat", "target": fx}))
+    return out
+
+
+def _history_text(H):
+    """one line a reader can follow"""
+    parts = []
+    for op in H["ops"]:
+        spec = H["objs"].get(op.get("obj") or op.get("src") or "", {})
+        what = spec.get("fixture") or (spec.get("value") or ["", "?"])[1] if spec else ""
+        if spec.get("unit") is not None:
+            what = f"{what}#unit{spec['unit']}"
+        if op["op"] == "to_json":
+            parts.append(f"to_json({what}" + (", include_binary=False)" if op.get("bin") is False else ")"))
+        elif op["op"] == "from_json":
+            parts.append(f"from_json({'its JSON' if 'of' in op else 'stored JSON of'} {what})")
+        elif op["op"] == "from_json_bad":
+            parts.append("from_json(malformed document)")
+        elif op["op"] == "cli":
+            parts.append(f"cli {' '.join(op['flags'])} {op['fixture']}")
+        else:
+            parts.append(f"{op['op']}({what})")
+    return " ; ".join(parts)
+
+
+def _shrink_history(H, keys, budget=10):
+    """drop calls as long as one of the findings stays (each candidate runs in a fresh process state)"""
+    cur = H
+    changed = True
+    while changed and budget > 0:
+        changed = False
+        for i in range(len(cur["ops"]) - 1):      # the last call stays
+            if budget <= 0:
+                break
+            lab = cur["ops"][i].get("label")
+            if lab and any(o.get("of") == lab for o in cur["ops"]):
+                continue
+            cand = dict(cur, ops=cur["ops"][:i] + cur["ops"][i + 1:])
+            used = {o.get("obj") for o in cand["ops"]} | {o.get("src") for o in cand["ops"]}
+            cand["objs"] = {k: v for k, v in cur["objs"].items() if k in used}
+            budget -= 1
+            try:
+                r = run_histories([cand], par=1)[0]
+            except Exception:
+                continue
+            if any(f["key"] in keys for f in r.get("findings", [])):
+                cur, changed = cand, True
+                break
+    return cur
+
+
+def history_violations(hists, results, shrink=True):
+    """findings of the worker's judge -> [Violation] (one per key, shortest history first, shrunk)"""
+    out, seen = [], set()
+    order = sorted(range(len(hists)), key=lambda i: len(hists[i]["ops"]))
+    for i in order:
+        r = results[i]
+        fs = [f for f in r.get("findings", []) if f["key"] != "judge-crashed"]
+        fresh = [f for f in fs if f["key"] not in seen]
+        if not fresh:
+            continue
+        H = hists[i]
+        keys = {f["key"] for f in fresh}
+        if shrink:
+            H2 = _shrink_history(H, keys)
+            if H2 is not H:
+                try:
+                    r2 = run_histories([H2], par=1)[0]
+                    fs2 = [f for f in r2.get("findings", []) if f["key"] in keys]
+                    if fs2:
+                        H, fresh = H2, fs2
+                except Exception:
+                    pass
+        for f in fresh:
+            if f["key"] in seen:
+                continue
+            seen.add(f["key"])
+            out.append(Violation("history." + f["key"], f"in a fresh process, history [{_history_text(H)}]: {f['what']}", {"history": H}))
+    return out
+
+
+def history_correspondence(ctx, gen, results, broken):
+    """the worker's recorded outcomes against the state machine of S2T/Model/SerialState.lean (driver op c05.hist)"""
+    reqs = [{"op": "c05.hist", "ops": [m for m in mops if m is not None]} for _, mops, _ in gen]
+    outs = pdrive(ctx, reqs)
+    mism = 0
+    for (H, mops, meta), res, o in zip(gen, results, outs):
+        ctx.case(("hist", json.dumps(H["ops"])[:4000], json.dumps(sorted(H["objs"].items()))[:4000]), nontrivial=len(H["ops"]) > 1)
+        ctx.count(f"history/{meta['pattern']}")
+        if "crash" in res:
+            ctx.count("history/child-crashed")
+            if len(broken) < 12:
+                broken.append(Broken("correspondence", "c05.hist", f"history child crashed: {res['crash'][:300]}", case={"source": "history", "history": H}))
+            continue
+        if res.get("pristine") is False:
+            ctx.count("history/registry-not-empty-after-import")
+        if "drv_error" in o:
+            broken.append(Broken("correspondence", "driver", o["drv_error"][:300], case={"source": "history"}))
+            continue
+        mouts = iter(o.get("outs", []))
+        bad = None
+        for k, (op, m, s) in enumerate(zip(H["ops"], mops, res["steps"])):
+            if m is None:
+                continue
+            mo = next(mouts, {})
+            if op["op"] == "to_json":
+                if s.get("j") != mo.get("j"):
+                    bad = bad or (k, "to_json", s, mo)
+            elif "unmodelled" in mo:
+                ctx.count("history/step-unmodelled")
+            elif m.get("bad"):
+                if ("ok" in s) != ("ok" in mo) or ("ok" in s and s["ok"] != mo["ok"]):
+                    bad = bad or (k, "from_json(malformed)", s, mo)
+            elif s.get("ok") != mo.get("ok") or s.get("err") != mo.get("err"):
+                bad = bad or (k, "from_json", s, mo)
+        if bad:
+            mism += 1
+            k, what, s, mo = bad
+            if len(broken) < 12:
+                broken.append(Broken("correspondence", "c05.hist",
+                                     f"history [{_history_text(H)}] step {k} {what}: impl={json.dumps(s)[:300]} model={json.dumps(mo)[:300]}",
+                                     case={"source": "history", "history": H}))
+    ctx.coverage["history_mismatches"] = mism
+    ctx.coverage["histories"] = len(gen)
+
+
 # =============================================================================================== correspondence
 def pdrive(ctx, reqs, workers=8):
     """ctx.drive over several driver processes (the requests are independent)"""
@@ -631,6 +1036,14 @@ def correspondence(ctx):
                 cases.append(("generated-xlsx", {"xlsx_rows": [[enc_cell(c) for c in row] for row in rows]}, x))
         else:
             ctx.count("generated-xlsx/" + r[0])
+    # ---------- (b') process histories: started now in fresh process states (zygote worker), collected at the end
+    import random as _random
+    hrng = _random.Random(ctx.seed * 7919 + 5)
+    hgen = gen_histories(ctx, hrng, [x for tag, _, x in cases if tag == "strict"],
+                         [(d, x) for tag, d, x in cases if tag == "fixture"],
+                         per_class=ctx.n(1, 6), extra=ctx.n(40, 400), n_fixture=ctx.n(24, 150),
+                         repeats=ctx.n(12, 100), pairs=ctx.n(30, 1000), n_cli=ctx.n(5, 20))
+    hrun = HistoryRun([h for h, _, _ in hgen], par=ctx.n(6, 12))
     reqs = [{"op": "c05.rt", "v": enc(x)} for _, _, x in cases]
     outs = pdrive(ctx, reqs)
     mism = 0
@@ -736,6 +1149,12 @@ def correspondence(ctx):
                                      case={"source": "cli", "n": k, "unit": unit, "bin": b}))
     ctx.coverage["mismatches"] = mism
     ctx.coverage["unmodelled_base64_cases"] = counters["unmodelled"]
+    # ---------- (b') collect the histories: outcomes vs. the state machine, and the judge's findings
+    hres = hrun.finish()
+    history_correspondence(ctx, hgen, hres, broken)
+    violations += history_violations([h for h, _, _ in hgen], hres)
+    if hgen:
+        ctx.sample({"source": "history", "history": _history_text(hgen[0][0]), "steps": [s.get("op") for s in hres[0].get("steps", [])]})
     return {"broken": broken, "violations": violations}
 
 
@@ -823,61 +1242,30 @@ def _to_json(o):
     return o.to_json() if hasattr(o, "to_json") else S.serialize_extraction(o)
 
 
-def check_value(x, replay, judge_roundtrip=True):
-    """The property statement on one result / unit / instance. Returns [Violation]."""
+def _judge_nobinary(x, j, jn, add):
+    """`jn` = serialisation of x without binary payloads, `j` = with: exactly the binary fields became null"""
+    json.dumps(jn)
+    diff = set(_diff_positions(j, jn))
+    binpos = set(_binary_positions(x))
+    if isinstance(j, dict) and "value" in j and not (dataclasses.is_dataclass(x) or isinstance(x, dict)):
+        binpos = {("value",) + p for p in binpos}
+    if diff != binpos:
+        add("serial.nobinary-diff", f"include_binary=False changes positions {sorted(map(str, diff ^ binpos))[:4]} other than exactly the binary fields")
+    else:
+        cur_ok = True
+        for p in diff:
+            cur = jn
+            for s in p:
+                cur = cur[s]
+            cur_ok = cur_ok and cur is None
+        if not cur_ok:
+            add("serial.nobinary-not-null", "a binary field is not null with include_binary=False")
+
+
+def _judge_rebuilt(x, y, j, text, add, known, out):
+    """y = what from_json made of the JSON `j` (= json text `text`) of x: same type, identical to_json, full text,
+    units, tables, image / attachment bytes, every nested object of the same class"""
     from sharepoint2text.parsing.extractors import serialization as S
-    from sharepoint2text.parsing.extractors.data_types import ExtractionInterface
-    out = []
-    cls = type(x).__name__
-
-    def add(key, what):
-        out.append(Violation(key, f"{cls}: {what}", replay))
-
-    try:
-        j = _to_json(x)
-    except Exception as e:  # noqa
-        add("serial.to_json-raises", f"to_json() raised {type(e).__name__}: {e}")
-        return out
-    try:
-        text = json.dumps(j)
-    except Exception as e:  # noqa
-        add("serial.not-json-serialisable", f"json.dumps(to_json()) raised {type(e).__name__}: {str(e)[:120]}")
-        return out
-    j2 = json.loads(text)
-    if _canon_json(j2) != text:
-        add("serial.json-transport", "json.loads(json.dumps(to_json())) is not the same data")
-    # ---- binary payloads excluded: exactly the binary fields become null
-    try:
-        jn = S.serialize_extraction(x, include_binary=False)
-        json.dumps(jn)
-        diff = set(_diff_positions(j, jn))
-        binpos = set(_binary_positions(x))
-        if isinstance(j, dict) and "value" in j and not (dataclasses.is_dataclass(x) or isinstance(x, dict)):
-            binpos = {("value",) + p for p in binpos}
-        if diff != binpos:
-            add("serial.nobinary-diff", f"include_binary=False changes positions {sorted(map(str, diff ^ binpos))[:4]} other than exactly the binary fields")
-        else:
-            cur_ok = True
-            for p in diff:
-                cur = jn
-                for s in p:
-                    cur = cur[s]
-                cur_ok = cur_ok and cur is None
-            if not cur_ok:
-                add("serial.nobinary-not-null", "a binary field is not null with include_binary=False")
-    except Exception as e:  # noqa
-        add("serial.nobinary-raises", f"serialize_extraction(include_binary=False) / json.dumps raised {type(e).__name__}: {str(e)[:100]}")
-    if not judge_roundtrip or not dataclasses.is_dataclass(x):
-        return out
-    # ---- round trip
-    marker = _untyped_marker_dict(x)
-    known = {"_bytes": "serial.bytes-marker-in-untyped-dict", "_bytesio": "serial.bytes-marker-in-untyped-dict",
-             "_type": "serial.type-marker-in-untyped-dict"}.get(marker)
-    try:
-        y = ExtractionInterface.from_json(j2)
-    except Exception as e:  # noqa
-        add(known or "serial.from_json-raises", f"from_json(json.loads(json.dumps(to_json()))) raised {type(e).__name__}: {str(e)[:120]}")
-        return out
     if type(y) is not type(x):
         add(known or "serial.roundtrip-type", f"from_json rebuilt a {type(y).__name__}")
         return out
@@ -954,43 +1342,98 @@ def check_value(x, replay, judge_roundtrip=True):
     return out
 
 
+def check_value(x, replay, judge_roundtrip=True):
+    """The property statement on one result / unit / instance. Returns [Violation]."""
+    from sharepoint2text.parsing.extractors import serialization as S
+    from sharepoint2text.parsing.extractors.data_types import ExtractionInterface
+    out = []
+    cls = type(x).__name__
+
+    def add(key, what):
+        out.append(Violation(key, f"{cls}: {what}", replay))
+
+    try:
+        j = _to_json(x)
+    except Exception as e:  # noqa
+        add("serial.to_json-raises", f"to_json() raised {type(e).__name__}: {e}")
+        return out
+    try:
+        text = json.dumps(j)
+    except Exception as e:  # noqa
+        add("serial.not-json-serialisable", f"json.dumps(to_json()) raised {type(e).__name__}: {str(e)[:120]}")
+        return out
+    j2 = json.loads(text)
+    if _canon_json(j2) != text:
+        add("serial.json-transport", "json.loads(json.dumps(to_json())) is not the same data")
+    # ---- binary payloads excluded: exactly the binary fields become null
+    try:
+        jn = S.serialize_extraction(x, include_binary=False)
+        _judge_nobinary(x, j, jn, add)
+    except Exception as e:  # noqa
+        add("serial.nobinary-raises", f"serialize_extraction(include_binary=False) / json.dumps raised {type(e).__name__}: {str(e)[:100]}")
+    if not judge_roundtrip or not dataclasses.is_dataclass(x):
+        return out
+    # ---- round trip
+    marker = _untyped_marker_dict(x)
+    known = {"_bytes": "serial.bytes-marker-in-untyped-dict", "_bytesio": "serial.bytes-marker-in-untyped-dict",
+             "_type": "serial.type-marker-in-untyped-dict"}.get(marker)
+    try:
+        y = ExtractionInterface.from_json(j2)
+    except Exception as e:  # noqa
+        add(known or "serial.from_json-raises", f"from_json(json.loads(json.dumps(to_json()))) raised {type(e).__name__}: {str(e)[:120]}")
+        return out
+    _judge_rebuilt(x, y, j, text, add, known, out)
+    return out
+
+
+def _judge_cli_output(flags, rc, got, errtext, results, replay):
+    """one CLI run (exit code, stdout, stderr) against the results of the file it was given"""
+    from sharepoint2text.parsing.extractors import serialization as S
+    out = []
+    b = "--binary" in flags
+    try:
+        if "--json" in flags:
+            exp = [S.serialize_extraction(r, include_binary=b) for r in results]
+        else:
+            exp = [[S.serialize_extraction(u, include_binary=b) for u in r.iterate_units()] for r in results]
+        exp_text = json.dumps(exp[0] if len(results) == 1 else exp)
+    except Exception as e:  # noqa
+        # the payload itself is not serialisable: reported by check_value; CLI must then fail cleanly
+        if rc == 0 or got:
+            out.append(Violation("cli.output-despite-unserialisable", f"{flags}: rc={rc} stdout={len(got)} bytes though payload raises {type(e).__name__}", replay))
+        return out
+    if rc != 0:
+        out.append(Violation("cli.json-fails", f"{' '.join(flags)} exits {rc}: {errtext[:120]}", replay))
+        return out
+    if got != exp_text + "\n":
+        out.append(Violation("cli.json-differs", f"{' '.join(flags)}: stdout is not the serialised results ({len(results)} result(s))", replay))
+        return out
+    top = json.loads(got)
+    want_obj = len(results) == 1 and "--json" in flags
+    if want_obj != isinstance(top, dict):
+        out.append(Violation("cli.json-shape", f"{' '.join(flags)}: {len(results)} result(s) but top-level is {type(top).__name__}", replay))
+    return out
+
+
+def _run_cli(flags, path):
+    from sharepoint2text import cli
+    buf, err = io.StringIO(), io.StringIO()
+    with contextlib.redirect_stdout(buf), contextlib.redirect_stderr(err):
+        try:
+            rc = cli.main([*flags, path])
+        except SystemExit as e:
+            rc = e.code
+    return rc, buf.getvalue(), err.getvalue()
+
+
 def check_cli(paths_results, replay_base):
     """CLI --json / --json-unit output is that same JSON (object for one result, array for several)."""
-    from sharepoint2text import cli
-    from sharepoint2text.parsing.extractors import serialization as S
     out = []
     for path, results in paths_results:
         for flags in (["--json"], ["--json", "--binary"], ["--json-unit"], ["--json-unit", "--binary"]):
-            buf, err = io.StringIO(), io.StringIO()
-            with contextlib.redirect_stdout(buf), contextlib.redirect_stderr(err):
-                try:
-                    rc = cli.main([*flags, path])
-                except SystemExit as e:
-                    rc = e.code
+            rc, got, errtext = _run_cli(flags, path)
             replay = dict(replay_base, cli=flags, path=os.path.basename(path))
-            b = "--binary" in flags
-            try:
-                if "--json" in flags:
-                    exp = [S.serialize_extraction(r, include_binary=b) for r in results]
-                else:
-                    exp = [[S.serialize_extraction(u, include_binary=b) for u in r.iterate_units()] for r in results]
-                exp_text = json.dumps(exp[0] if len(results) == 1 else exp)
-            except Exception as e:  # noqa
-                # the payload itself is not serialisable: reported by check_value; CLI must then fail cleanly
-                if rc == 0 or buf.getvalue():
-                    out.append(Violation("cli.output-despite-unserialisable", f"{flags}: rc={rc} stdout={len(buf.getvalue())} bytes though payload raises {type(e).__name__}", replay))
-                continue
-            if rc != 0:
-                out.append(Violation("cli.json-fails", f"{' '.join(flags)} exits {rc}: {err.getvalue()[:120]}", replay))
-                continue
-            got = buf.getvalue()
-            if got != exp_text + "\n":
-                out.append(Violation("cli.json-differs", f"{' '.join(flags)}: stdout is not the serialised results ({len(results)} result(s))", replay))
-                continue
-            top = json.loads(got)
-            want_obj = len(results) == 1 and "--json" in flags
-            if want_obj != isinstance(top, dict):
-                out.append(Violation("cli.json-shape", f"{' '.join(flags)}: {len(results)} result(s) but top-level is {type(top).__name__}", replay))
+            out += _judge_cli_output(flags, rc, got, errtext, results, replay)
     return out
 
 
@@ -1151,6 +1594,15 @@ def search(ctx, broken):
                 for u in x.iterate_units():
                     add(check_value(u, dict(desc, unit=True)))
     add(_cli_oracle(ctx))
+    # 4. process histories: the broken ones first, then a fresh stream
+    hs = [b.case["history"] for b in broken if isinstance(b.case, dict) and b.case.get("history")]
+    if hs:
+        add(history_violations(hs, run_histories(hs)))
+    pool = instances(ctx, rng, ctx.n(2, 6), strict=True)
+    hgen = gen_histories(ctx, rng, pool, res[:40], per_class=ctx.n(2, 6), extra=ctx.n(60, 400), n_fixture=ctx.n(24, 100),
+                         repeats=ctx.n(24, 100), pairs=ctx.n(1000, 1000), n_cli=ctx.n(8, 20))
+    hl = [h for h, _, _ in hgen]
+    add(history_violations(hl, run_histories(hl)))
     return out
 
 
@@ -1217,6 +1669,15 @@ def replay(ctx, payload):
         except Exception as e:  # noqa
             return False, f"the recorded instance cannot be rebuilt on this tree ({type(e).__name__}: {e})"
         vs = check_value(x, rep)
+    elif "history" in rep:
+        r = run_histories([rep["history"]], par=1)[0]
+        if "crash" in r:
+            return False, "the recorded history crashes on this tree: " + r["crash"][:300]
+        want = payload.get("key", "").replace("history.", "", 1)
+        fs = [f for f in r.get("findings", []) if f["key"] != "judge-crashed"]
+        fs.sort(key=lambda f: f["key"] != want)
+        return (not fs), "; ".join(f"{f['key']}: {f['what']}" for f in fs[:3]) or \
+            f"property holds in a fresh process after the recorded history [{_history_text(rep['history'])}]"
     elif "xls_header" in rep:
         from sharepoint2text.parsing.extractors.data_types import XlsContent
         vs = check_value(XlsContent(sheets=_xls_stub_sheet(rep["xls_header"], rep["xls_row"])), rep)
